@@ -347,7 +347,7 @@ def element_transform_lookup(ctx: Ctx):
     cases = [("int id, int key", {3: T}, 3), ("int id, string key", {"3": T}, 3), ("digit-string id (year / numeric alias)", {"1950": T}, "1950"), ("alias id", {"A0": T}, "A0"), ("negative int id, string key", {"-1": T}, -1)]
     bad, n = [], 0
     for variant in res(calls[0].args[0]):
-        e = Expander(ctx.repo, els, stop=lambda mm: False, self_name="cls").visit(variant)
+        e = Expander(ctx.repo, els, stop=lambda mm: mm.name == "_build_element_id", self_name="cls").visit(variant)
         for label, xf, eid in cases:
             def atoms(x, xf=xf, eid=eid):
                 t = u(x)
